@@ -691,7 +691,7 @@ func (r *collection) addService(service any, lifetime Lifetime, opts ...AddOptio
 			interfaceType := reflect.TypeOf(iface).Elem()
 
 			// Validate that the service type implements the interface
-			if !descriptor.Type.Implements(interfaceType) && !reflect.PointerTo(descriptor.Type).Implements(interfaceType) {
+			if !descriptor.Type.Implements(interfaceType) {
 				return &TypeMismatchError{
 					Expected: interfaceType,
 					Actual:   descriptor.Type,
